@@ -65,7 +65,8 @@ InnerShowsLast(h, S) ==
 
 PaddingBlank(h, S) ==
   \A p \in Box(h) \ Inner(h) :
-     p \in DOMAIN S.cells /\ S.cells[p].g = "sp" /\ S.cells[p].bg = DefaultColor
+     IF h.fill_empty THEN p \notin DOMAIN S.cells     \* an empty fill leaves the cells untouched
+     ELSE p \in DOMAIN S.cells /\ S.cells[p].g = "sp" /\ S.cells[p].bg = DefaultColor
 
 CleanEnd(h, S) ==
   IF N > 0 /\ Toks[N].k = "partial" THEN "incomplete-sequence at end of output"
